@@ -462,3 +462,7 @@ package shwap
 //@   checks err == nil ==> forall k int, l int :: 0 <= k && k < l && l < len(nd) ==> rowIdxs[k] < rowIdxs[l]
 //@   loop 1: invariant -1 <= rangeindex && rangeindex < len(nd) && len(nd) == len(rowIdxs)
 //@   loop 1: invariant forall j int :: 0 <= j && j <= rangeindex ==> nd[j].Proof != nil && (len(nd[j].Shares) == 0 <==> len(deref(nd[j].Proof).leafHash) > 0) && nmtNsVerified(deref(nd[j].Proof), namespace.data, nd[j].Shares, root.RowRoots[rowIdxs[j]])
+
+//@ func (Sample).IsEmpty
+//@   property C06
+//@   ensures result <==> s.Proof == nil
